@@ -205,6 +205,9 @@ class Parameter(ABC):
                 )
                 return False
 
+            # Controller reports received since the previous attempt
+            # replace the local values, so re-assert the requested one.
+            self._values.value = value
             await self.device.queue.put(await self.create_request())
             if not self.is_tracking_changes:
                 await self.force_refresh()
